@@ -7,6 +7,7 @@ var verifHarnesses = map[string]func(){
 	"VerifH_C17_L2_immutable": VerifH_C17_L2_immutable,
 	"VerifH_C17_L1_schedule":  VerifH_C17_L1_schedule,
 	"VerifH_C14_L2_names":     VerifH_C14_L2_names,
+	"VerifH_C14_L2_longNames": VerifH_C14_L2_longNames,
 	"VerifH_C14_L3_hashes":    VerifH_C14_L3_hashes,
 	"VerifH_C14_L1_wideMatrix": VerifH_C14_L1_wideMatrix,
 }
